@@ -735,6 +735,10 @@ class EventBus:
     def _start(self) -> None:
         """Start the event bus if not already running"""
         if not self._is_running:
+            if self.event_queue is not None and self.event_queue._is_shutdown:  # pyright: ignore[reportPrivateUsage]
+                # stop() shut this bus down and it stays stopped (dispatch() raises QueueShutDown): a refused dispatch() or a
+                # wait_until_idle() must not bring the run loop back to life just to process what stop() aborted
+                return
             try:
                 loop = asyncio.get_running_loop()
 
@@ -821,6 +825,10 @@ class EventBus:
         # Shutdown the queue to unblock any pending get() operations
         if self.event_queue:
             self.event_queue.shutdown()
+            # the events still waiting are aborted: nobody is going to process them, and nobody has to wait for them
+            while not self.event_queue.empty():
+                self.event_queue.get_nowait()
+                self.event_queue.task_done()
 
         # print('STOPPING', self.event_history)
 
@@ -870,6 +878,9 @@ class EventBus:
 
         self._start()
         assert self._on_idle and self.event_queue, 'EventBus._start() must be called before wait_until_idle() is reached'
+        if not self._is_running:
+            # the bus was stopped: it has nothing queued or in flight and is not going to process anything
+            return
 
         start_time = asyncio.get_event_loop().time()
         remaining_timeout = timeout
